@@ -119,6 +119,8 @@ class Chk:
         if not self.C:
             self.base.add("content_empty")
         self.out = []
+        self.desc = ""
+        self.par = ""      # exact parameters of the call being judged (recorded with a violation)
 
     def fresh(self):
         return build(self.spec, self.dims, self.form)
@@ -133,10 +135,11 @@ class Chk:
         return set()
 
     def V(self, fam, sym, feats, exp, obs):
-        self.out.append((fam, sym, self.base | set(feats), exp, obs))
+        self.out.append((fam, sym, self.base | set(feats), exp, {"call": self.desc, "observed": obs}))
 
     def run(self, fam, feats, fn, exp, ndepth=None, model=None, what="content"):
         """fn() -> result object (Tensor or Fiber); compare its content."""
+        self.desc = "%s %s%s" % (fam, self.par, " (then the inverse)" if "inverse" in feats else "")
         try:
             res = fn()
         except (Exception, SystemExit) as ex:
@@ -199,6 +202,7 @@ def g_swizzle(k):
         ids = _ids(D)
         for perm in itertools.permutations(range(D)):
             new_ids = [ids[i] for i in perm]
+            k.par = "rank_ids=%s" % (new_ids,)
             feats = set()
             if perm == tuple(range(D)):
                 feats.add("identity")
@@ -217,6 +221,7 @@ def g_swizzle(k):
                       what="roundtrip-content")
         for d in range(D - 1):
             feats = _pf(d) | k.empties_at(d)
+            k.par = "depth=%d" % d
             r = k.run("T.swapRanks", feats, lambda: k.fresh().swapRanks(depth=d), R.image_swap(C, d), D)
             if r is not None:
                 k.run("T.swapRanks", feats | {"inverse"}, lambda: r.swapRanks(depth=d), C, D,
@@ -230,6 +235,7 @@ def g_swizzle(k):
                 cur.path("F.swap:skipped-precondition")
                 continue
             feats = _pf(d)
+            k.par = "at depth %d" % d
             if d == 0:
                 r = k.run("F.swapRanks", feats, lambda: k.fresh().swapRanks(), R.image_swap(C, 0), D)
                 if r is not None:
@@ -258,6 +264,7 @@ def g_flatten(k):
             if style == "linear" and not _has_shape(k.form):
                 continue
             feats = _pf(d, l) | {"style:" + style}
+            k.par = "depth=%d levels=%d style=%s" % (d, l, style)
             if style in ("absolute", "relative"):
                 if R.rank_collides(R.stored_prefixes(k.spec, D, d + l + 1), d, l, style, dims):
                     cur.path("flatten:%s:collision-skipped" % style)
@@ -316,6 +323,7 @@ def g_merge(k):
             cur.path("merge:collision" if coll else "merge:no-collision")
             for name, fn, ref in MERGE_FNS:
                 feats = _pf(d, l) | {"style:" + style, "fn:" + name}
+                k.par = "depth=%d levels=%d style=%s merge_fn=%s" % (d, l, style, name if fn else None)
                 if coll:
                     feats.add("collision")
                 exp = R.image_merge(C, d, l, style, dims, ref)
@@ -338,6 +346,7 @@ def g_split(k):
         for kind in ("splitUniform", "splitEqual"):
             for step in (1, 2):
                 feats = _pf(d)
+                k.par = "step=%d depth=%d, flattenRanks(depth=%d, levels=1, absolute)" % (step, d, d)
                 if k.form != "f":
                     def tfn():
                         s = getattr(k.fresh(), kind)(step, depth=d)
@@ -369,6 +378,7 @@ def g_update(k):
         funcs = (("shift", lambda c, n=n: c + 1, n + 1), ("reverse", lambda c, n=n: n - 1 - c, None))
         for name, f, new_shape in funcs:
             feats = _pf(d) | {"func:" + name}
+            k.par = "depth=%d func=%s" % (d, name)
             exp = R.image_coord(C, d, f)
             model = None
             if d > 0:
@@ -395,6 +405,7 @@ def g_update(k):
         return p
     for d in range(D):
         feats = _pf(d) | {"leaf" if d == D - 1 else "interior"}
+        k.par = "depth=%d func=%s" % (d, "value*10" if d == D - 1 else "identity")
         if d == D - 1:
             exp = R.image_value(C, scale)
             model = ("payloads_written_at_occupancy_index",
